@@ -518,11 +518,11 @@ func main() {
 	}
 	cases = light
 	// the megabyte rungs of the size ladder hold several copies of their content: a few at a time,
-	// in their own goroutines next to the main queue, with the collector at its normal pace
+	// in their own goroutines next to the main queue, under a memory limit
 	var bigWG sync.WaitGroup
 	var bigNext atomic.Int64
-	debug.SetGCPercent(200)
-	for w := 0; w < 4; w++ {
+	debug.SetMemoryLimit(3 << 30) // the front end runs the collector rarely; this bounds what the big rungs can pile up
+	for w := 0; w < 3; w++ {
 		bigWG.Add(1)
 		go func() {
 			defer bigWG.Done()
@@ -538,7 +538,6 @@ func main() {
 			}
 		}()
 	}
-	defer bigWG.Wait()
 	enum.Parallel(len(cases), r.OutOfTime, func(i int) {
 		st := cases[(i+rot)%len(cases)]
 		t := explore(r, st, false)
@@ -549,6 +548,7 @@ func main() {
 		}
 		mu.Unlock()
 	})
+	bigWG.Wait()
 	r.Eval(total.evals)
 	r.Nontrivial(total.nontrivial)
 	// smallest counterexample of every class first (the report keeps the first five of a class)
